@@ -30,6 +30,7 @@ import (
 	"strconv"
 	"strings"
 	"sync"
+	"sync/atomic"
 	"syscall"
 	"testing"
 	"time"
@@ -343,7 +344,7 @@ func Exhaustive(name string, complete bool) {
 // Current stores the case in flight so that a crash that kills the process
 // (fatal error, race exit, watchdog) can be attributed.
 func Current(kind string, raw []byte) {
-	if st.cur == nil {
+	if st.cur == nil || inBatch.Load() {
 		return
 	}
 	n := len(raw)
@@ -362,9 +363,14 @@ func Current(kind string, raw []byte) {
 	binary.LittleEndian.PutUint32(st.cur[0:], 0x56504355)
 }
 
+// inBatch is set while RunConcurrent runs a batch: the batch is the case in
+// flight, and the checks of its members (which run concurrently) must not
+// overwrite it.
+var inBatch atomic.Bool
+
 // CurrentJSON is Current for a JSON-encodable case.
 func CurrentJSON(kind string, c any) {
-	if st.cur == nil {
+	if st.cur == nil || inBatch.Load() {
 		return
 	}
 	b, err := json.Marshal(c)
@@ -560,6 +566,8 @@ func RunConcurrent[C any](t *testing.T, p Prop[C], base, batch, goroutines int) 
 		if err := json.Unmarshal(raw, &cases); err != nil {
 			return fmt.Errorf("decoding case: %w", err)
 		}
+		inBatch.Store(true)
+		defer inBatch.Store(false)
 		for i := 0; i < 20; i++ {
 			if err := run(cases); err != nil {
 				return err
@@ -576,7 +584,9 @@ func RunConcurrent[C any](t *testing.T, p Prop[C], base, batch, goroutines int) 
 		CurrentJSON(kind, cases)
 		Eval(kind)
 		stop := watch(kind, cases)
+		inBatch.Store(true)
 		err := run(cases)
+		inBatch.Store(false)
 		stop()
 		if err != nil {
 			RecordFailure(kind, cases, err)
